@@ -635,3 +635,18 @@ Proof.
   destruct (none_cert_ok S eps Uv cand (lam t a Uv cand)) eqn:E; [| discriminate].
   apply (none_cert_sound_lemma S eps Uv cand _ E).
 Qed.
+
+(* ---------------- completeness of ANY returned list, certified on the whole simplex ----------------
+   If every vector of a reference list Gamma is certified (none_cert_ok) to be nowhere more than eps above
+   the list G, then G's surface is at least Gamma's minus eps, at every non-negative point. *)
+Theorem surface_cert_sound_lemma : forall S eps (Gamma G : vlist) (lam : ventry -> vec),
+  Gamma <> [] ->
+  (forall g, In g Gamma -> none_cert_ok S eps (valsof G) (vals g) (lam g) = true) ->
+  forall b, nonneg b -> length b = S -> vbest Gamma b <= vbest G b + eps * qsum b.
+Proof.
+  intros S eps Gamma G lam Hne Hc b Hb Hl.
+  destruct (vbest_attained Gamma b Hne) as [g [Hg Eg]]. rewrite Eg.
+  destruct (none_cert_sound_lemma S eps (valsof G) (vals g) (lam g) (Hc g Hg) b Hb Hl) as [u [Hu Hle]].
+  unfold valsof in Hu. apply in_map_iff in Hu. destruct Hu as [e [<- He]].
+  pose proof (vbest_ub G b e He). lra.
+Qed.
